@@ -22,7 +22,7 @@ EXPLANATION = (
     'all four castling moves; Book::pieceToProm / promToPiece are inverse (constant evaluation over all codes); (3) a failed file read '
     'zero-fills the entry before deSerialize uses it, the binary search keeps lo = -1 / hi = numEntries as exclusive bounds so only '
     'indices 0..n-1 are read, and the scan loop is bounded by numEntries; (4) the weight accumulator of getBookMove is wide enough for (widest stored weight) x (largest entry count of a file) and the random pick is defined for every total (found and fixed defect D12: Random::nextInt never returns for a modulus above 2^30).'
-    ' Added later; (6) the cumulative-weight test of getBookMove, replayed for every weight vector over {0..3} of length 1..4 and every draw, chooses entry k exactly weight(k) times. (1, extended) the legality filter is executed unconditionally. (7) the scan of the entries stored under a key ends only on a key mismatch or the end of the file: with equal keys no early exit is reachable, whatever weight or move the entry holds.')
+    ' Added later; (6) the cumulative-weight test of getBookMove, replayed for every weight vector over {0..3} of length 1..4 and every draw, chooses entry k exactly weight(k) times. (1, extended) the legality filter is executed unconditionally. (7) the scan of the entries stored under a key ends only on a key mismatch or the end of the file: with equal keys no early exit is reachable, whatever weight or move the entry holds. (8) the castling terms of the polyglot key follow the published order (768 + 0..3: white short, white long, black short, black long).')
 UNDECIDED = 'that a corrupt file never produces a legal but wrong move; selection probabilities.'
 ASSUMPTIONS = ['MoveGen::pseudoLegalMoves + removeIllegal produce exactly the legal moves (property C01)',
                'book files are smaller than 2^40 bytes (used only to bound the number of entries under one key in C18.4)']
@@ -42,6 +42,7 @@ def run(fb, rep, tier):
     c5_file_positions(fb, rep)
     c6_selection_rule(fb, rep)
     c7_scan_ends_on_key_mismatch_only(fb, rep)
+    c8_polyglot_castle_terms(fb, rep)
 
 
 def c1_validate(fb, rep):
@@ -617,3 +618,36 @@ def c7_scan_ends_on_key_mismatch_only(fb, rep):
     # ... and with equal keys the entry is appended
     skipped = [b for b in pushes if G.excluded_under(f, b, eq)]
     rep.ob(clause, 'K4 guard', 'getBookEntries: an entry stored under the position\'s key is appended to the result', not skipped, f.where, '', f.sname)
+
+
+# ----------------------------------------------------------------------------- .8
+
+def c8_polyglot_castle_terms(fb, rep):
+    """K11 agreement with the published book format.  A polyglot key adds one random number per castling right, in the fixed
+    order white short, white long, black short, black long (offsets 768 + 0..3).  Books made by other programs follow it,
+    so the engine's key function must pair each right with its offset: a swapped pair leaves the keys of positions in
+    which both or neither right of that colour exist unchanged (xor commutes) and looks up the sister position's entries
+    when exactly one exists."""
+    clause = 'C18.8'
+    f = fb.find1('PolyglotBook::getHashKey')
+    if rep.need(clause, f, 'PolyglotBook::getHashKey') is None:
+        return
+    WANT = {'h1Castle': 0, 'a1Castle': 1, 'h8Castle': 2, 'a8Castle': 3}
+    got = {}
+    for b, i, e in f.events():
+        if not (e.get('k') == 'asg' and e.get('op') == '^='):
+            continue
+        idx = None
+        for n in walk(e.get('r')):
+            if isinstance(n, dict) and n.get('k') == 'idx' and 'hashRandoms' in show(n.get('b'), 40):
+                idx = G.tv(n.get('i'), lambda x: None)
+        if idx is None:
+            continue
+        for c, side in G.guard_trees(f, set(f.blocks), b):
+            c0 = _strip(c)
+            if side and isinstance(c0, dict) and c0.get('k') == 'call' and cname(c0).split('::')[-1] in WANT:
+                got.setdefault(cname(c0).split('::')[-1], set()).add(idx - 768)
+    rep.floor(clause, 'castling terms of the polyglot key', len(got), 4)
+    bad = {k: sorted(v) for k, v in got.items() if v != {WANT[k]}}
+    rep.ob(clause, 'K11 constant agreement', 'getHashKey adds random number 768 + k for the k-th castling right in the order white short, white long, black short, black long', not bad and set(got) == set(WANT),
+           f.where, 'offsets used %s%s' % ({k: sorted(v) for k, v in got.items()}, ('; wrong: %s' % bad) if bad else ''), f.sname)
